@@ -2,7 +2,9 @@ package interpreter
 
 import (
 	"fmt"
+	"math"
 
+	"github.com/tetratelabs/wazero/internal/leb128"
 	"github.com/tetratelabs/wazero/internal/wasm"
 )
 
@@ -473,7 +475,14 @@ func (c *compiler) wasmOpcodeSignature(op wasm.Opcode, index uint32) (*signature
 		// ref.null is translated as i64.const 0.
 		return signature_None_I64, nil
 	case wasm.OpcodeMiscPrefix:
-		switch miscOp := c.body[c.pc+1]; miscOp {
+		// A misc opcode is encoded as an unsigned variable 32-bit integer, not necessarily in its shortest form.
+		miscOp32, _, err := leb128.LoadUint32(c.body[c.pc+1:])
+		if err != nil {
+			return nil, fmt.Errorf("failed to read misc opcode: %v", err)
+		} else if miscOp32 > math.MaxUint8 {
+			return nil, fmt.Errorf("unsupported misc instruction in interpreterir: 0x%x", miscOp32)
+		}
+		switch miscOp := wasm.OpcodeMisc(miscOp32); miscOp {
 		case wasm.OpcodeMiscI32TruncSatF32S, wasm.OpcodeMiscI32TruncSatF32U:
 			return signature_F32_I32, nil
 		case wasm.OpcodeMiscI32TruncSatF64S, wasm.OpcodeMiscI32TruncSatF64U:
